@@ -8,7 +8,7 @@ from vf.core import fixtures as fx
 POL_TYPES = {"coherence": ("AABBCRCI", 4), "stokes": ("IQUV", 4), "intensity": ("AA+BB", 1), "ppqq": ("AABB", 2)}
 
 
-def make_psrfits(path, raw, nbits, layout, freqs, *, scl, offs, wts, zero_off=0.0, tbin=64e-6, imjd=58000, smjd=1000, offs_s=0.25):
+def make_psrfits(path, raw, nbits, layout, freqs, *, scl, offs, wts, zero_off=0.0, tbin=64e-6, imjd=58000, smjd=1000, offs_s=0.25, nstot=None):
     """raw: int array [nsub, nsblk, npol, nchan] of digitised values (0..2^nbits-1)."""
     from astropy.io import fits
 
@@ -48,7 +48,7 @@ def make_psrfits(path, raw, nbits, layout, freqs, *, scl, offs, wts, zero_off=0.
     sh = tab.header
     for k, v in [("POL_TYPE", pol_type), ("NPOL", npol), ("TBIN", tbin), ("NBITS", nbits), ("ZERO_OFF", float(zero_off)), ("SIGNINT", 0),
                  ("NSUBOFFS", 0), ("NCHAN", nchan), ("CHAN_BW", float(freqs[1] - freqs[0]) if nchan > 1 else -1.0), ("NCHNOFFS", 0), ("NSBLK", nsblk),
-                 ("NSTOT", nsub * nsblk)]:
+                 ("NSTOT", nsub * nsblk if nstot is None else nstot)]:
         sh[k] = v
     fits.HDUList([pri, tab]).writeto(path, overwrite=True)
 
